@@ -99,6 +99,7 @@ def jobs(tier, seed):
                     fx = {k: ANCHOR2.get(k, v) for k, v in fx.items()}
                     add(kern, wiring, True, "1/2", 2, 2, cost=10, fixed=fx, slice=sname + "@anchor2")
                     out[-1]["name"] += f"-slice:{sname}@anchor2"
+                # (three particles with outliers on were probed on the parameter slice: > 50 min per job - not included)
     for cname, kern, wiring, thr, outl in (("weight_omits_log_q", "fully", "library", "0", False), ("last_step_correction_dropped", "bootstrap", "library", "0", False),
                                            ("retained_weight_from_wrong_slot", "bootstrap", "library", "0", True), ("final_selection_uniform", "fully", "run", "0", False),
                                            ("run_wiring_without_perm_dist", "semi", "run", "0", False)):
